@@ -116,6 +116,35 @@ theorem nil_options_accept_iff (op : Op) (d : String → Bool) :
   rw [heff]
   simp
 
+/-! ### histories over two operations of one path item -/
+
+theorem steps_eq_map (op : Op) (d : String → Bool) (ss : List Step) :
+    validateSteps op d ss = ss.map (fun s => validateCall (s.op op) d s.call) := by
+  induction ss with
+  | nil => rfl
+  | cons s ss ih => simp [validateSteps, ih]
+
+/-- C07 for every step, whichever of the two operations it is made for and whatever was validated before -/
+theorem steps_accept_iff (op : Op) (d : String → Bool) (ss : List Step) (i : Nat) (h : i < ss.length) :
+    ((validateSteps op d ss)[i]'(by rw [steps_eq_map]; simpa using h)).1.isOk = true ↔
+      Accept (ss[i]).call.opts ((ss[i]).op op) ((ss[i]).call.env d) := by
+  simp only [steps_eq_map, List.getElem_map, validateCall]
+  exact accept_iff _ _ _
+
+/-- for the sibling every path-level parameter is in effect (minus the excluded query parameters): what the first
+operation overrides does not matter to it -/
+theorem sibling_effective (o : Opts) (op : Op) :
+    effective o (sibling op) = op.pathParams.filter (fun p => !(o.excludeQuery && p.loc = In.query)) := by
+  simp [effective, sibling, opList, Request.overridden]
+
+/-- kernel-checked: the overriding operation passes, its sibling reports the path-level parameter the first one
+overrides — in whichever order and however often the two are validated -/
+theorem sibling_example :
+    let op : Op := { opParams := some [⟨"q", .query, true⟩], pathParams := [⟨"q", .query, false⟩, ⟨"r", .header, true⟩],
+                     opSecurity := none, docSecurity := [], hasBody := false, bodyOK := true }
+    validateSteps op (fun _ => true) [⟨false, ⟨none⟩⟩, ⟨true, ⟨none⟩⟩, ⟨false, ⟨none⟩⟩, ⟨true, ⟨some ⟨{ multiError := true }, none⟩⟩⟩] =
+      [(.ok, []), (.single (.param ⟨"q", .query, false⟩), []), (.ok, []), (.multi [.param ⟨"q", .query, false⟩], [])] := by decide
+
 /-! ### Non-vacuity: a history on which the calls differ -/
 
 /-- one operation, four calls: nil options (no callback: the secured operation is refused), a callback that accepts,
